@@ -25,6 +25,11 @@ func tryReplay(eng *Engine, prop string, a *obAgg, f *Oblig, replay map[string]a
 var replayAdapters = map[string]func(eng *Engine, a *obAgg, f *Oblig, replay map[string]any) bool{
 	"C16": replayC16,
 	"C10": replayTemplates,
+	"C04": replayTemplates,
+	"C07": replayTemplates,
+	"C08": replayTemplates,
+	"C09": replayTemplates,
+	"C13": replayTemplates,
 	"C01": replayTemplates,
 	"C02": replayTemplates,
 	"C12": replayTemplates,
@@ -37,6 +42,8 @@ var replayAdapters = map[string]func(eng *Engine, a *obAgg, f *Oblig, replay map
 // fixedReplays: obligations whose counterexample is schedule/sequence shaped (not a function input): a hand-written
 // adapter drives the real code through the scenario the failed obligation describes.
 var fixedReplays = map[string]struct{ tmpl, pkg, run string }{
+	"(*Handler).run$1/pre/broadcastNextPartial#0/partial-built-on-a-head-not-ahead-of-the-ticked-round": {"C04_head_ahead_of_clock_test.go.tmpl", "internal/chain/beacon", "TestVerifReplayC04HeadAheadOfClock"},
+	"(*Handler).broadcastNextPartial/assert/signed-round-not-beyond-the-ticked-round":                   {"C04_head_ahead_of_clock_test.go.tmpl", "internal/chain/beacon", "TestVerifReplayC04HeadAheadOfClock"},
 	"(*Process).Packet/lock/callee-acquires-lock-held-by-caller/BroadcastDKG#0": {"C14_packet_deadlock_test.go.tmpl", "internal/dkg", "TestVerifReplayC14PacketDeadlock"},
 	"(*callbackStore).Put/nonblock/send#0": {"C12_put_blocks_test.go.tmpl", "internal/chain/beacon", "TestVerifReplayC12PutBlocks"},
 	"(*partialCache).Append/post/append-keeps-per-signer-bound": {"C12_cache_bound_test.go.tmpl", "internal/chain/beacon", "TestVerifReplayC12CacheBound"},
